@@ -238,6 +238,7 @@ def run_scenario(case, observer=None):
         rec = {"k": state["k"], "phase": "step", "inv": v.invariants(), "normal": v.is_normal(),
                "cb_open": {n.name: n.connected_line.circuitbreaker.is_open for n in v.nets},
                "timers": {n.name: n.controller.sectioning_time.get_hours() for n in v.nets},
+               "ptimers": {n.name: n.controller.parent_sectioning_time.get_hours() for n in v.nets if hasattr(n.controller, "parent_sectioning_time")},
                "failed": [l.name for l in v.lines if l.failed],
                "ict_failed": [c.name for c in list(getattr(ps, "ict_lines", [])) + list(getattr(ps, "ict_nodes", [])) if c.failed]}
         if observer is not None:
